@@ -69,11 +69,83 @@ def cases(tier):
     for name in STEPS:
         for btw in BETWEEN:
             out.append({"name": "%s/%s" % (name, btw), "step": name, "between": btw, "iters": iters})
+    out.append({"name": "stale-view", "stale_view": True})
     return out
+
+
+# ------------------------------------------------------------------ a view that outlives its graph: its gradient must never come back stale
+STALE_VIEWS = ["x[0]", "x[:, 1:]", "x.T", "x.reshape(-1)"]
+STALE_INVALIDATE = {"nonview-op": "t2 = x * 1.0", "inplace": "x *= 1.0", "other-backward": "(x.sum() * 2.0).backward()", "null_grad": "x.null_grad()"}
+STALE_THEN = {"view-of-it": "w = v[...]", "op-on-it": "w = v * 2.0", "view-of-view": "w = v[...]\nw2 = w[...]"}
+STALE_REPLAY = """import sys
+import numpy as np
+import mygrad as mg
+VIEW, INV, THEN = %r, %r, %r
+x = mg.Tensor(np.array([[0.5, -1.25, 2.0], [1.5, 0.25, -0.75]])); y = mg.Tensor(np.array([1.25, -0.5, 0.75]))
+env = {"mg": mg, "np": np, "x": x, "y": y}
+exec("v = " + VIEW, env); v = env["v"]
+L = (v * v).sum() * 3.0; L.backward()
+old = None if v.grad is None else v.grad.copy()
+exec(INV, env)
+mid = v.grad
+exec(THEN, env)
+bad = []
+g = v.grad
+if old is not None and g is not None and INV != "(x.sum() * 2.0).backward()" and np.array_equal(g, old): bad.append("the stale gradient of the view is readable again")
+if mid is None and g is not None: bad.append("v.grad read None after the invalidation and reads %%s after the next use of v" %% (g.tolist(),))
+if INV == "(x.sum() * 2.0).backward()" and g is not None and x.grad is not None:
+    exp = eval(VIEW.replace("x", "x.grad", 1)) if False else None
+print(bad)
+print('REPRODUCED' if bad else 'NOT-REPRODUCED'); sys.exit(1 if bad else 0)
+"""
+
+
+def run_stale_view(spec, tier, mg):
+    res = common.new_result()
+    findings = []
+    for view in STALE_VIEWS:
+        for iname, inv in STALE_INVALIDATE.items():
+            for tname, then in STALE_THEN.items():
+                lib.reset_state()
+                res["paths"] += 1
+                x = mg.Tensor(symarr("x", (2, 3)))
+                y = mg.Tensor(symarr("y", (3,)))
+                env = {"mg": mg, "np": np, "x": x, "y": y}
+                exec("v = " + view, env)
+                v = env["v"]
+                L = (v * v).sum() * 3.0
+                L.backward()
+                old = None if v.grad is None else [t.uid for t in terms_of(v.grad)]
+                exec(inv, env)
+                mid = v.grad
+                exec(then, env)
+                g = v.grad
+                why = None
+                if mid is None and g is not None:
+                    why = "v.grad read None after `%s` and is readable again after `%s`" % (inv, then.replace("\n", "; "))
+                elif g is not None and old is not None and iname != "other-backward" and [t.uid for t in terms_of(g)] == old:
+                    why = "the gradient v had before `%s` is still readable after `%s`" % (inv, then.replace("\n", "; "))
+                if why:
+                    path = common.write_replay(PROP, gradcase._safe("stale_%s_%s_%s" % (view, iname, tname)), STALE_REPLAY % (view, inv, then))
+                    ok, out = common.run_replay(path)
+                    if ok:
+                        res["status"] = common.VIOLATION
+                        res["violations"].append({"signature": "stale-view-grad:%s:%s" % (iname, tname), "replay": path,
+                                                  "summary": "`v = %s; L = (v * v).sum() * 3; L.backward(); %s; %s`: %s" % (view, inv, then.replace("\n", "; "), why)})
+                    else:
+                        findings.append(why)
+    lib.reset_state()
+    if findings and res["status"] != common.VIOLATION:
+        res["status"] = common.INCONCLUSIVE
+        res["notes"].append("did not reproduce: %s" % findings[:2])
+    res["sample"] = {"views": STALE_VIEWS, "invalidations": list(STALE_INVALIDATE.values()), "next use": list(STALE_THEN.values())}
+    return res
 
 
 def run_case(spec, tier):
     mg = common._WORKER["mg"]
+    if spec.get("stale_view"):
+        return run_stale_view(spec, tier, mg)
     _install_recorders(mg)
     res = common.new_result()
     engine = eng_mod.Engine(skip_ties=True)
